@@ -224,7 +224,7 @@ func (h *FBDNSDB) watchDBAndReload(watcher *fsnotify.Watcher) (err error) {
 		case <-h.done:
 			return nil
 		case ev := <-watcher.Events:
-			if filterEvent(ev.Op) && path.Clean(ev.Name) == h.dbConfig.Path {
+			if filterEvent(ev.Op) && path.Clean(ev.Name) == h.dbPath() {
 				h.ReloadChan <- *NewPartialReloadSignal()
 			}
 		}
@@ -234,7 +234,7 @@ func (h *FBDNSDB) watchDBAndReload(watcher *fsnotify.Watcher) (err error) {
 // WatchDBAndReload refreshes the data view on DB file change
 func (h *FBDNSDB) WatchDBAndReload() error {
 	// Watch the whole dir as file FD might change
-	watchdir := path.Dir(h.dbConfig.Path)
+	watchdir := path.Dir(h.dbPath())
 	watcher, err := prepareDBWatcher(watchdir)
 	if watcher != nil {
 		defer watcher.Close()
@@ -409,5 +409,15 @@ func (h *FBDNSDB) ReportBackendStats() {
 
 // ValidateDbKey checks whether record of certain key is in db
 func (h *FBDNSDB) ValidateDbKey(dbKey []byte) error {
+	// a reload may swap (and close) the served DB concurrently
+	h.reloadMu.RLock()
+	defer h.reloadMu.RUnlock()
 	return h.dnsdb.ValidateDbKey(dbKey)
+}
+
+// dbPath returns the path of the served DB; a full reload changes it.
+func (h *FBDNSDB) dbPath() string {
+	h.reloadMu.RLock()
+	defer h.reloadMu.RUnlock()
+	return h.dbConfig.Path
 }
